@@ -55,6 +55,9 @@ TYPES = {
     "U": ("String", "U", _s, lambda c: '"s%d"' % c),
     "Vec<T>": ("Vec<i16>", "Vec < T >", lambda c: "vec![%di16]" % c, lambda c: "[%d]" % c),
     "Option<U>": ("Option<String>", "Option < U >", lambda c: "Some(%s)" % _s(c), lambda c: 'Some("s%d")' % c),
+    "Tagged<T>": ("Tagged<i16>", "Tagged < T >", lambda c: "Tagged(%di16)" % c, lambda c: "Tagged(%d)" % c),
+    "Vec<U>": ("Vec<String>", "Vec < U >", lambda c: "vec![%s]" % _s(c), lambda c: '["s%d"]' % c),
+    "Cl<U>": ("Cl<String>", "Cl < U >", lambda c: "Cl(%s)" % _s(c), lambda c: 'Cl("s%d")' % c),
     "&'a str": ("&'static str", "& 'a str", lambda c: '"s%d"' % c, lambda c: '"s%d"' % c),
     "[u8; N]": ("[u8; 2]", "[u8 ; N]", lambda c: "[%du8, 0u8]" % c, lambda c: "[%d, 0]" % c),
 }
@@ -64,16 +67,21 @@ GENERICS = {
     "TU": ("<T, U>", "<i16, String>", ["T", "U", "Vec<T>", "Option<U>"]),
     "lt": ("<'a, T>", "<'static, i16>", ["&'a str", "T", "Vec<T>"]),
     "const": ("<const N: usize>", "<2>", ["[u8; N]"]),
+    # bounds that live ONLY in the where clause and that the field types need (struct Tagged<T: Copy>, Cl<U: Clone>)
+    "where": ("<T, U>", "<i16, String>", ["Tagged<T>", "Cl<U>", "Vec<U>"]),
 }
+WHERE = {"where": " where T: Copy, U: Clone"}
+WHERE_PREDS = {"where": ["T:Copy", "U:Clone"]}
+GEN_PARAMS = {"none": [], "T": ["T"], "TU": ["T", "U"], "lt": ["'a", "T"], "const": ["constN:usize"], "where": ["T", "U"]}
 PLAIN_TYPES = ["i32", "u8", "u64", "String", "char", "(i32, u8)", "Vec<u8>"]
 # a bare type parameter cannot be the Self type of a foreign trait impl (orphan rule), and `Vec<T>` next to
 # `Vec<u8>` gives overlapping impls: TryInto enums avoid both (compile-ability is C01's subject)
-TRYINTO_GENERIC_OK = {"Vec<T>", "Option<U>", "&'a str", "[u8; N]"}
+TRYINTO_GENERIC_OK = {"Vec<T>", "Option<U>", "&'a str", "[u8; N]", "Tagged<T>", "Cl<U>", "Vec<U>"}
 
 NAMES = ["A", "B", "C", "Foo", "FooBar", "HTTPServer", "IOError", "Xml2Json", "V2", "Ab_Cd", "snake_case", "lower",
          "UPPER", "MixedUP", "X1y2", "TwoWords", "ABc", "Http2", "R2D2", "Unit", "Just", "Nothing", "BigInt",
          "NamedSmallInts", "Z9", "Éclair"]
-RAW_NAMES = ["fn", "Type", "match", "Struct"]
+RAW_NAMES = ["fn", "Type", "match", "Struct", "type", "loop"]
 
 
 def snake(name):
@@ -104,7 +112,7 @@ def snake(name):
 def gen_decl(rng, derive, style, k):
     """style: plain (only documented `ignore`), vref (documented variant-level ref/ref_mut, Unwrap/TryUnwrap),
     whitelist (`#[try_into]` on the chosen variants), wild (any parameter anywhere, also undocumented ones)"""
-    gk = rng.choice(["none", "none", "none", "T", "TU", "lt", "const"])
+    gk = rng.choice(["none", "none", "none", "T", "TU", "lt", "const", "where"])
     pool = PLAIN_TYPES + GENERICS[gk][2]
     if derive == "TryInto":
         pool = [t for t in pool if t in PLAIN_TYPES or t in TRYINTO_GENERIC_OK]
@@ -147,9 +155,11 @@ def gen_decl(rng, derive, style, k):
     # generic parameters must be used
     used = set(f["ty"] for v in variants for f in v["fields"])
     need = {"T": ["T", "Vec<T>"], "U": ["U", "Option<U>"], "'a": ["&'a str"], "N": ["[u8; N]"]}
-    params = {"none": [], "T": ["T"], "TU": ["T", "U"], "lt": ["'a", "T"], "const": ["N"]}[gk]
+    if gk == "where":
+        need = {"T": ["Tagged<T>"], "U": ["Cl<U>"]}        # the field types must need the where clause
+    params = {"none": [], "T": ["T"], "TU": ["T", "U"], "lt": ["'a", "T"], "const": ["N"], "where": ["T", "U"]}[gk]
     for p in params:
-        opts = [t for t in need[p] if t in pool or derive != "TryInto"]
+        opts = [t for t in need[p] if t in pool or derive != "TryInto" or gk == "where"]
         opts = [t for t in opts if derive != "TryInto" or t in TRYINTO_GENERIC_OK]
         if not any(t in used for t in need[p]):
             if not opts:
@@ -339,7 +349,8 @@ def decl_src(d, for_crate=False):
     if for_crate:
         head = "#[derive(Clone, PartialEq, Debug, derive_more::%s)]\n" % d["derive"]
     ea = rattrs_src(d["derive"], d["rattrs"]) if d.get("rich") else attr_src(d["derive"], d["attr"])
-    return "%s%spub enum %s%s {\n%s\n}" % (head, ea.replace("] ", "]\n"), d["name"], gdecl, "\n".join(vs))
+    return "%s%spub enum %s%s%s {\n%s\n}" % (head, ea.replace("] ", "]\n"), d["name"], gdecl, WHERE.get(d["generics"], ""),
+                                            "\n".join(vs))
 
 
 # ------------------------------------------------------------------ the documented semantics (oracle)
@@ -545,17 +556,43 @@ TOK2TY = {nospace(v[1]): k for k, v in TYPES.items()}
 
 
 def real_accessors(d, resp):
-    """-> ('ok', [accessor...]) | ('err', msg) | ('panic', msg) ; accessor = ('fn', name, mode) | ('impl', mode, tys)"""
+    """-> ('ok', [accessor...], header problems) | ('err', msg) | ('panic', msg) | ('unparsable', msg) | ('unreadable', what);
+    accessor = ('fn', name, mode) | ('impl', mode, tys). Never raises: whatever cannot be read is an outcome."""
+    try:
+        return _real_accessors(d, resp)
+    except Exception as e:                                   # noqa: BLE001 - any surprise in the harness output
+        return ("unreadable", "%s: %s; response %s" % (type(e).__name__, e, json.dumps(resp, default=str)[:1500]))
+
+
+def _real_accessors(d, resp):
+    if not isinstance(resp, dict):
+        return ("unreadable", repr(resp)[:500])
     if "err" in resp:
         return ("err", resp["err"])
     if "panic" in resp or "crash" in resp:
         return ("panic", (resp.get("panic") or resp.get("crash")))
     if "ok" not in resp:
-        return ("bad", resp)
+        return ("unreadable", json.dumps(resp, default=str)[:1500])
+    items = resp.get("items")
+    if isinstance(items, dict) and "unparsable" in items:
+        return ("unparsable", "%s; tokens: %s" % (items["unparsable"], str(resp["ok"])[:1200]))
+    if not isinstance(items, list):
+        return ("unreadable", json.dumps(resp, default=str)[:1500])
     accs = []
-    for it in resp.get("items", []):
+    header = []
+    want_params = [nospace(x) for x in GEN_PARAMS[d["generics"]]]
+    want_preds = WHERE_PREDS.get(d["generics"], [])
+    for it in items:
         if it.get("kind") != "impl":
-            return ("bad", "unexpected item %r" % (it,))
+            return ("unreadable", "unexpected item %r" % (it,))
+        have_params = [nospace(x) for x in it.get("params", [])]
+        have_preds = [nospace(x) for x in it.get("where", [])]
+        for x in want_params:
+            if x not in have_params:
+                header.append(("impl-generics-lost", x, it.get("trait"), it.get("self_ty")))
+        for x in want_preds:
+            if x not in have_preds:
+                header.append(("user-where-clause-lost", x, it.get("trait"), it.get("self_ty")))
         if d["derive"] != "TryInto":
             for m in it["members"]:
                 mm = re.match(r"(?:const )?fn (\S+) \(([^)]*)\)", m["sig"])
@@ -566,14 +603,15 @@ def real_accessors(d, resp):
             tr = nospace(it["trait"])
             mode = "mut" if "<&'__deriveMoreLifetimemut" in tr else ("ref" if "<&'__deriveMoreLifetime" in tr else "owned")
             st = it["self_ty"].strip()
-            assert st.startswith("(") and st.endswith(")"), st
+            if not (st.startswith("(") and st.endswith(")")):
+                return ("unreadable", "Self type %r" % st)
             tys = []
             for p in split_top(st[1:-1]):
                 p = nospace(p)
                 p = re.sub(r"^&'__deriveMoreLifetime(mut)?", "", p)
                 tys.append(TOK2TY.get(p, "?" + p))
             accs.append(("impl", mode, tuple(tys)))
-    return ("ok", accs)
+    return ("ok", accs, header)
 
 
 # ------------------------------------------------------------------ the model (Coq)
@@ -723,6 +761,10 @@ pub fn guard<F: FnOnce() -> String>(id: &str, f: F) {
     }
 }
 pub fn quiet() { std::panic::set_hook(Box::new(|_| {})); }
+#[derive(Clone, PartialEq, Debug)]
+pub struct Tagged<T: Copy>(pub T);
+#[derive(Clone, PartialEq, Debug)]
+pub struct Cl<U: Clone>(pub U);
 '''
 
 SEP = "\x1f"
@@ -971,6 +1013,8 @@ def compile_class(d, msg):
                if "ignore" not in (v["attr"] or [])]
         if tuple_field_collision([("impl", "owned", t) for t in tys]):
             return "try-into-tuple-field-collides"
+    if d["generics"] == "where" and ("E0277" in msg or "E0310" in msg or "E0309" in msg):
+        return "user-where-clause-lost"
     return "compile-error:%s" % d["derive"]
 
 
@@ -1016,6 +1060,19 @@ def corpus():
                                               V("Other", "tuple", ["u64"]), V("Skip", "tuple", ["u64"], attr=["ignore"])])
     add("TryInto", "T", ["ref_mut"], [V("A", "tuple", ["Vec<T>", "i32"], attr=["owned"]), V("B", "named", ["Vec<T>", "i32"], attr=["ref"]),
                                       V("C", "tuple", ["Vec<T>", "i32"]), V("D", attr=["ref", "owned"])])
+    # raw KEYWORD variants (unit / tuple / named, ignored and not): the pattern must keep `r#`
+    for dv in DERIVES:
+        named = dv in ("IsVariant", "TryInto")
+        add(dv, "none", ["ref", "ref_mut"] if dv != "IsVariant" else None,
+            [V("type", "tuple", ["String"], raw=True), V("match", "tuple", ["u8", "u8"], raw=True), V("loop", raw=True),
+             V("fn", "tuple", ["u8", "u8"], raw=True, attr=["ignore"]), V("Ident", "tuple", ["String"]),
+             V("struct", "named", ["i32", "u8"], raw=True, attr=None if named else ["ignore"]),
+             V("while", "named", ["i32"], raw=True, attr=["ignore"])])
+    # bounds only in a where clause that the field types need, reference kinds selected
+    for dv in DERIVES:
+        add(dv, "where", ["owned", "ref", "ref_mut"] if dv == "TryInto" else (["ref", "ref_mut"] if dv != "IsVariant" else None),
+            [V("One", "tuple", ["Tagged<T>"]), V("Other", "tuple", ["Tagged<T>"]), V("Many", "tuple", ["Cl<U>", "u8"]),
+             V("Skipped", "tuple", ["Cl<U>", "u8"], attr=["ignore"]), V("Nothing")])
     # KNOWN_FINDINGS try-into-tuple-field-collides, pinned
     add("TryInto", "none", None, [V("C", "tuple", ["(i32, u8)"]), V("N", "tuple", ["i32", "u8"])])
     add("TryInto", "none", ["ref"], [V("Small", "tuple", ["i32"], attr=["owned"]), V("Big", "tuple", ["i32"])])
@@ -1133,8 +1190,20 @@ def run(tier, seed, replay):
         model = model_table(d, term)
         model_tabs[d["id"]] = model
         src = decl_src(d)
-        if real[0] == "bad":
-            raise common.BuildError("cannot read the expansion summary of %s: %r" % (src, real[1]))
+        if real[0] in ("unparsable", "unreadable"):
+            chk.violation("expansion-" + real[0] + ":" + d["derive"], {"decl": d, "source": src, "real": real[1]},
+                          "the expansion of #[derive(%s)] on %s %s: %s" %
+                          (d["derive"], src.replace("\n", " "),
+                           "is not a sequence of Rust items" if real[0] == "unparsable" else "cannot be read", str(real[1])[:300]))
+            continue
+        header = real[2] if real[0] == "ok" else []
+        if header:
+            for cls in sorted(set(h[0] for h in header)):
+                hs = [h for h in header if h[0] == cls]
+                chk.violation(cls, {"decl": d, "source": src, "impls": hs},
+                              "%d generated impl(s) of %s lack %s of the enum (e.g. impl %s for %s): %s" %
+                              (len(hs), d["derive"], "the generic parameter" if cls == "impl-generics-lost" else "the where-clause predicate",
+                               hs[0][2], hs[0][3], src.replace("\n", " ")))
         doc = documented(d)
         # tie 1: outcome and accessor set
         if real[0] != model[0]:
@@ -1197,7 +1266,7 @@ def run(tier, seed, replay):
                           "two impls of TryFrom<%s> for %s are generated (keys %s and %s): rustc rejects the enum with E0119: %s" %
                           (d["name"], coll[0][0], list(coll[0]), list(coll[1]), src.replace("\n", " ")))
         if d["id"] < len(decls):
-            if real[0] == "ok" and real[1] and not coll:
+            if real[0] == "ok" and real[1] and not coll and not header:
                 rt_cases.append((d, real[1]))
     if replay and not rt_cases:
         return finish(chk, st)
@@ -1266,8 +1335,13 @@ def run(tier, seed, replay):
             for vi, v in enumerate(d["variants"]):
                 cid = "%d:%d:%d" % (d["id"], ai, vi)
                 if cid not in obs:
-                    raise common.BuildError("no observation for %s of %s" % (cid, src))
-                o = parse_obs(d, vi, obs[cid], dmap)
+                    chk.violation("runtime-observation-missing:" + d["derive"], {"decl": d, "source": src, "accessor": key, "value_variant": v["name"]},
+                                  "the generated program printed nothing for %s on a `%s` value of %s" % (key, v["name"], src.replace("\n", " ")))
+                    continue
+                try:
+                    o = parse_obs(d, vi, obs[cid], dmap)
+                except Exception as e:                       # noqa: BLE001
+                    o = ("X", "unreadable observation %r (%s)" % (obs[cid][:200], e))
                 n_pairs += 1
                 x = variant_of.get((d["id"], acc[1])) if acc[0] == "fn" else None
                 chk.count(("rt", d["derive"], d["attr"], d["generics"], [(w["name"], w["kind"], w["attr"], w["fields"]) for w in d["variants"]], key, vi),
